@@ -338,10 +338,33 @@ def _raw(ctx: Ctx, c: Collector) -> None:
         aliases = {b.term[1] for b in s.of_kind("bind") if T.strip(b.term[2]) in replies}
         if fwd and not s.returns:
             pr.append(f"{what} is received but not returned: the caller gets None")
+        def settle(t, guards):
+            """the value on the path of its own guards: the no-exception side of a try-merge, and the side of a conditional whose
+            condition is one of the guards"""
+            def notry(x):
+                if isinstance(x, tuple):
+                    if len(x) == 4 and x[0] == "phi" and x[1] == ("unknown", "try-merge"):
+                        return notry(x[2])
+                    return tuple(notry(y) for y in x)
+                return x
+            t = notry(t)
+            pos = {T.guard_term(notry(g)) for g in guards}
+            for _ in range(4):
+                if isinstance(t, tuple) and len(t) == 4 and t[0] == "phi":
+                    if t[1] in pos:
+                        t = t[2]
+                        continue
+                    if T.negate(t[1]) in pos:
+                        t = t[3]
+                        continue
+                break
+            return t
         for r in s.returns:
             v = unalias(T.strip(r.term), s, fi)
             if v in replies or v in aliases or (v == T.NONE and r.term == T.NONE and qn.endswith("V2ToV1Adapter.send")):
                 continue
+            if qn.endswith("V2ToV1Adapter.send") and settle(T.strip(r.term), r.guards) == T.NONE and r.guards:
+                continue        # the local answer to setup_done, reached through an answer object
             pr.append(f"returns {T.show(r.term)[:70]} (line {r.lineno}) instead of {what} as received: the scheduler validates a value the simulator did not send")
         # the reply object is not edited on the way
         for e in s.events:
